@@ -17,7 +17,7 @@ Local Notation P := ZParr.
 Local Notation D := dflt_opts.
 """
 
-TARGETS = []
+TARGETS = ["Props/P_C01.vo"]
 
 OPS = {"add": (operator.add, "EAdd"), "sub": (operator.sub, "ESub"), "mul": (operator.mul, "EMul")}
 NP_SPELL = {"add": numpy.add, "sub": numpy.subtract, "mul": numpy.multiply}
